@@ -20,7 +20,9 @@ delimiter offsets in From<&StringValue> (3/3 for block strings, 1/1 for quoted o
 is_block_string).  C06.CONV: the compiler builds string values and descriptions from
 String::from(&cst::StringValue) (the decoder), not from raw token text.  C06.NOPANIC (thorough):
 the decoder's four panic sites are discharged by facts of the extracted lexer machine.
-Does not decide BlockStringValue's indentation arithmetic.
+C06.INDENT: the arithmetic of BlockStringValue() where the shape shows it (first line excluded from
+commonIndent, indent < length, min(commonIndent, len) removed from all but the first line, leading
+and trailing blank lines, LF joining) - judged only when the construct is recognised.
 """
 
 SPEC = {'"': ("same",), "\\": ("same",), "/": ("same",), "b": ("lit", 0x08), "f": ("lit", 0x0C), "n": ("lit", 0x0A), "r": ("lit", 0x0D), "t": ("lit", 0x09), "u": ("unicode",)}
@@ -101,6 +103,132 @@ def rule_esc(prog, rep):
         rep.instance("C06.ESC", "\\uXXXX: take(4) hex digits, value = fold (acc << 4) + to_digit(16)")
     else:
         rep.finding("C06.ESC", fn.name, "unicode-fold", "the \\u escape is not decoded as four hexadecimal digits (take(4): %s, <<4: %s, to_digit(16): %s)" % (ok, bool(shl), bool(radix)), fn.loc())
+
+
+def rule_indent(prog, rep):
+    """C06.INDENT: the arithmetic of BlockStringValue() where the code's shape shows it.  Each
+    sub-rule first recognises the construct (an iterator chain, a closure's path table); when the
+    construct is written differently it says so in a note and does not judge - only a recognised
+    construct with a different constant / operator / source is a finding.
+      commonIndent = min over the lines *after the first* of indent(line) where indent < length;
+      every line but the first loses min(commonIndent, len) leading characters;
+      leading blank lines are skipped with the WhiteSpace-only test; lines are joined with U+000A,
+      nothing before the first; trailing blank lines are cut by truncating at the end of the last
+      non-blank line."""
+    rep.floor("C06.INDENT", 4)
+    from ..flow import _strip, facts_at, loop_headers, loop_body
+    from ..tables import enum_paths, return_value_on_path
+    ubs = prog.fn(r"^apollo_parser::cst::node_ext::unescape_block_string$")
+    clos = {g.uid: g for g in prog.fns.values() if g.parent == ubs.uid and g.kind == "closure"}
+
+    def closure_of(symtext):
+        m = re.search(r"closure:([^,()]+\{closure#\d+\})", symtext)
+        return clos.get(m.group(1)) if m else None
+
+    # (1) commonIndent
+    mins = [c for c in ubs.live_calls() if re.search(r"Iterator::min$|Iterator>::min$", c.name)]
+    done = False
+    for c in mins:
+        chain = ubs.sym(c.args[0])
+        m = re.match(r"^Iterator::filter_map\((.*), closure:[^()]*\)$", chain)
+        if not m:
+            continue
+        src = m.group(1)
+        done = True
+        m2 = re.match(r"^Iterator::skip\((?:node_ext::)?split_lines\(&?arg1\), (\d+)\)$", src)
+        if m2 and m2.group(1) == "1":
+            rep.instance("C06.INDENT", "commonIndent: minimum over the lines after the first (skip(1))")
+        elif m2 or re.match(r"^(?:node_ext::)?split_lines\(&?arg1\)$", src):
+            rep.finding("C06.INDENT", ubs.name, "first-line", "commonIndent is computed over `%s`: BlockStringValue() excludes exactly the first line (its indentation is the text after the opening quotes)" % src, c.loc())
+        else:
+            rep.note("C06.INDENT: source of the commonIndent minimum not recognised (%s)" % src[:80])
+        clo = closure_of(chain)
+        if clo is not None:
+            leaves = [(_strip(a), return_value_on_path(clo, p) or "") for a, _r, p in enum_paths(clo)]
+            ok = None
+            if len(leaves) == 1:
+                mm = re.match(r"^bool::then_some\((\w+)\((.*?), (.*?)\), (.*)\)$", leaves[0][1])
+                if mm:
+                    ok = mm.group(1) == "Lt" and "count_indent(" in mm.group(2) and "str::len(" in mm.group(3) and mm.group(4) == mm.group(2)
+                    got = "%s(%s, %s) -> %s" % mm.groups()
+            else:
+                somes = [(a, v) for a, v in leaves if v.startswith("Option::Some{")]
+                if somes:
+                    ok = all(any(f[0] == "cmp" and ((f[1] == "Lt" and f[4] is True) or (f[1] == "Ge" and f[4] is False)) and "count_indent" in str(f[2]) for f in a) and "count_indent(" in v for a, v in somes)
+                    got = str(somes[0])
+            if ok is True:
+                rep.instance("C06.INDENT", "commonIndent: a line counts iff indent < length (a WhiteSpace-only line does not)")
+            elif ok is False:
+                rep.finding("C06.INDENT", clo.name, "indent-lt-length", "a line contributes its indentation under `%s`; BlockStringValue() says: if indent is less than length" % got[:160], clo.loc())
+            else:
+                rep.note("C06.INDENT: per-line indent closure not recognised")
+        # the default when no line counts
+        uo = [u for u in ubs.live_calls() if u.name.endswith("Option::<T>::unwrap_or") and "Iterator::min(" in ubs.sym(u.args[0])]
+        if uo and ubs.sym(uo[0].args[1]) != "0":
+            rep.finding("C06.INDENT", ubs.name, "no-indent-default", "commonIndent defaults to %s when no line has content; it must be 0 (nothing removed)" % ubs.sym(uo[0].args[1]), uo[0].loc())
+    if not done:
+        rep.note("C06.INDENT: commonIndent is not computed by a min() over a filter_map chain; not judged")
+    # (2) removal of commonIndent from every line but the first
+    maps = [c for c in ubs.live_calls() if re.search(r"Iterator::map$|Iterator>::map$", c.name) and "enumerate(" in ubs.sym(c.args[0])]
+    for c in maps:
+        clo = closure_of(ubs.sym(c.args[1]))
+        if clo is None:
+            continue
+        rows = [(_strip(a), return_value_on_path(clo, p) or "") for a, _r, p in enum_paths(clo)]
+        first = [v for a, v in rows if any(f[0] == "cmp" and f[1] == "Eq" and f[2] == "arg2.0" and f[3] == "const:0" and f[4] is True for f in a)]
+        rest = [v for a, v in rows if any(f[0] == "cmp" and f[1] == "Eq" and f[2] == "arg2.0" and f[3] == "const:0" and f[4] is False for f in a)]
+        if len(rows) != 2 or len(first) != 1 or len(rest) != 1:
+            rep.note("C06.INDENT: the line-mapping closure is not `if index == 0 {..} else {..}`; not judged")
+            continue
+        ok = first[0] == "arg2.1" and re.match(r"^&\*?traits::index\(&?arg2\.1, RangeFrom::RangeFrom\{Ord::min\(arg1\.0, str::len\(&?arg2\.1\)\)\}\)$", rest[0]) is not None
+        if ok:
+            rep.instance("C06.INDENT", "lines: the first is kept whole, every other loses min(commonIndent, len) leading characters")
+        else:
+            rep.finding("C06.INDENT", clo.name, "strip", "line 0 maps to `%s` and the other lines to `%s`; BlockStringValue() keeps the first line and removes commonIndent characters (at most the whole line) from each other line" % (first[0][:60], rest[0][:120]), clo.loc())
+    # (3) leading blank lines
+    sw = [c for c in ubs.live_calls() if re.search(r"Iterator::skip_while$|Iterator>::skip_while$", c.name)]
+    for c in sw:
+        clo = closure_of(ubs.sym(c.args[1]))
+        if clo is None:
+            continue
+        leaves = set(return_value_on_path(clo, p) or "" for _a, _r, p in enum_paths(clo))
+        if leaves == {"unescape_block_string::is_whitespace_line(&arg2)"} or (len(leaves) == 1 and re.search(r"is_whitespace_line\(&?\*?arg2\)$", list(leaves)[0])):
+            rep.instance("C06.INDENT", "leading lines are dropped while they are WhiteSpace-only")
+        elif len(leaves) == 1 and re.search(r"^Not\(|is_empty\(", list(leaves)[0]):
+            rep.finding("C06.INDENT", clo.name, "leading-blank", "leading lines are dropped while `%s`, not while they contain only WhiteSpace" % list(leaves)[0][:100], clo.loc())
+        else:
+            rep.note("C06.INDENT: skip_while predicate not recognised (%s)" % sorted(leaves)[:1])
+    # (4) joining and trailing blank lines
+    hs = {h: v for h, v in loop_headers(ubs).items() if h in ubs.reachable_blocks([v[0]])}  # real loops only
+    nl = [c for c in ubs.live_calls() if c.name.endswith("String::push")]
+    reps = [c for c in ubs.live_calls() if c.name.endswith("node_ext::replace_into")]
+    if len(hs) == 1 and len(reps) == 2:
+        h = list(hs)[0]
+        body = set(loop_body(ubs, h, hs))
+        inb = [c for c in reps if c.block in body]
+        outb = [c for c in reps if c.block not in body]
+        pushes_in = [c for c in nl if c.block in body]
+        ok = len(inb) == 1 and len(outb) == 1 and len(pushes_in) == 1 and ubs.sym(pushes_in[0].args[1]) == "10" and ubs.dominates(pushes_in[0].block, inb[0].block) and not [c for c in nl if c.block not in body]
+        if ok:
+            rep.instance("C06.INDENT", "lines are joined with U+000A: nothing before the first line, one line feed before every other")
+        else:
+            rep.finding("C06.INDENT", ubs.name, "join", "lines are not joined as `first (LF line)*` (pushes in the loop: %s, outside: %d)" % ([ubs.sym(c.args[1]) for c in pushes_in], len([c for c in nl if c.block not in body])), ubs.loc())
+        tr = [c for c in ubs.live_calls() if c.name.endswith("String::truncate")]
+        upd = []
+        for b in sorted(body):
+            for st in ubs.stmts(b):
+                if st[0] == "=" and not st[1][1] and tr and ubs.sym(tr[0].args[1]) == "var:%s" % (ubs.local_name(st[1][0]) or ""):
+                    upd.append(b)
+        if len(tr) == 1 and upd:
+            good = all(any(f[0] == "callbool" and f[1].endswith("is_whitespace_line") and f[3] is False for f in facts_at(ubs, b)) for b in upd)
+            if good:
+                rep.instance("C06.INDENT", "trailing WhiteSpace-only lines are cut: the end mark moves only after a line that is not blank, and the result is truncated there")
+            else:
+                rep.finding("C06.INDENT", ubs.name, "trailing-blank", "the end-of-content mark is also moved after WhiteSpace-only lines: trailing blank lines are kept", ubs.loc())
+        else:
+            rep.note("C06.INDENT: trailing-blank-line handling not recognised (truncate: %d)" % len(tr))
+    else:
+        rep.note("C06.INDENT: joining loop not recognised")
 
 
 def rule_block(prog, rep):
@@ -244,6 +372,7 @@ def rule_conv(prog, rep):
 def run(prog, rep):
     rule_esc(prog, rep)
     rule_block(prog, rep)
+    rule_indent(prog, rep)
     rule_conv(prog, rep)
     if rep.tier == "thorough":
         rep.note("C06.NOPANIC: discharged through C03.DFA facts (see C03 thorough tier)")
